@@ -13,7 +13,7 @@ NOTE_COMMON = ("Trusted: Lean 4.33 kernel; axioms limited to propext / Classical
 CLAIMS = {
     "C01": ("Proved end to end at the level of collection passes, for every reachable world of the machine (any programs, callbacks, nested collections, injected panics and their unwinding): the global invariants Counts (count >= existing pointers), Inv (marks = lists, buffered => tracing counter 0, freed => no count/mark) and Flags hold in every reachable world and discharge the hypotheses of graph theorem T1, so whatever a pass selects is referenced by no table entry, stashed clone, frame temporary, untraced field or dead value's field (reachable_pass_candidates_unreferenced), nothing reachable from the program through any chain of traced/untraced fields is ever selected (reachable_object_not_candidate), and no existing pointer ever targets a freed box (no_dangling_pointer). Not yet proved: that the *value* behind every program-reachable pointer is intact after caught panics (isolation of a half-destroyed garbage set, DESIGN.md §10); decided per run by the canary/reachability oracles and the correspondence.",
             "Lean proof (global machine invariants by induction over all micro-steps + T1 graph theorem, unbounded) + model/impl correspondence with UAF/canary/allocator oracles"),
-    "C02": ("Graph theorem T2 (per-pass completeness + both queues drain with fuel = #objects) proved for all heaps. Proved for every collection pass of every panic-free history (reachable_pass_complete): the hypotheses of T2 are discharged from the machine invariants, and because strong counts are exact there, every member of the traced closure of the buffer that is not reachable from a member to which a pointer from outside the closure exists (table entry, stashed clone, temporary, untraced field, field of an object outside) is selected by the pass - garbage owned only through traced fields is always selected, whatever history preceded. Not yet proved: history-level coverage I10 (every garbage component has a buffered member); checked per run by the model-independent leak oracle after quiescent collections and by the correspondence of freed sets / allocated_bytes.",
+    "C02": ("Graph theorem T2 (per-pass completeness + both queues drain with fuel = #objects) proved for all heaps. Proved for every collection pass of every panic-free history (reachable_pass_complete): the hypotheses of T2 are discharged from the machine invariants, and because strong counts are exact there, every member of the traced closure of the buffer that is not reachable from a member to which a pointer from outside the closure exists (table entry, stashed clone, temporary, untraced field, field of an object outside) is selected by the pass - garbage owned only through traced fields is always selected, whatever history preceded. Not yet proved: history-level coverage I10 (every garbage component has a buffered member); checked per run by the model-independent leak oracle after quiescent collections and by the correspondence of freed sets / allocated_bytes. The buffer and the collector's lists are proved at pointer level to be the plain lists the machine uses (Proofs/ListsRefine.lean, see C11), and src/lists.rs is run against that model.",
             "Lean proof (T2 completeness + termination; per-pass completeness in every panic-free reachable world) + correspondence + leak oracle"),
     "C03": ("Proved for every reachable world: a box is released only while it exists, exactly one free event per release, a freed identity stays freed (every allocation released at most once in any history), nothing that exists points to a released box; allocated bytes go down by exactly the box size. Proved for every history in which no panic has been unwound (HistR: all operations, callbacks, nested/automatic collections, resurrection, cleaners, new_cyclic): drop_in_place runs only on an intact value in an allocated box (drop_only_alive), EVERY VALUE IS DROPPED AT MOST ONCE in the whole history (dropped_at_most_once), nothing is done to an object after its destruction (no second drop, no finalize), a destroyed value stays destroyed and its identity is never reused, and every allocated box whose value is gone is owned by a frame (the Cc::drop destroying it, the new_cyclic building it, the deallocate_list loop) - invariant Life by induction over every running micro-step. A box is released only after its value is gone - dropped, moved out by try_unwrap, or never built (released_box_has_no_live_value, free_only_after_value_gone; invariants Owned/FreedDead). Step theorems on every release site (value marked dead before its fields are released, free after drop, new_cyclic guard emits no drop). After a caught panic 'dropped at most once' is not proved (needs the isolation invariant, DESIGN.md §10): decided per run by the allocator oracle (double free, layout mismatch, callback on dead value) and the correspondence of ordered drop/free events.",
             "Lean proof (free-at-most-once over all histories; drop-at-most-once and life-cycle invariant over panic-free histories) + correspondence + allocator oracle + layout grid"),
@@ -31,7 +31,7 @@ CLAIMS = {
             "Lean proof (weak-count invariant over all micro-steps) + correspondence"),
     "C10": ("Proved for every history of the running machine (Proofs/ActOnce.lean, induction over all micro-steps): EACH REGISTERED CLEANING ACTION RUNS AT MOST ONCE (action_at_most_once: identifiers are handed out from a counter, stored actions have pairwise distinct identifiers - invariant AOk - and an action is taken out of its slot before it runs, both in Cleanable::clean and in the map's drop glue); an action that ran is in no slot map any more and its identifier is never reused (action_ran_is_gone), so clean() afterwards finds nothing. Step lemmas: slot emptied before the action's script is entered on both paths; Cleanable drop only drops a Weak; clean after destruction is a no-op. 'Exactly once by the time the Cleaner is gone' (panic-free) and 'actions never reach a dropped object' are checked per run (ordered action events, cap-dead / action-early oracles).",
             "Lean proof (action-at-most-once over all histories of the running machine) + correspondence + action oracles"),
-    "C11": ("Proved for every reachable world: allocated_bytes() equals the total size of the boxes that exist (BytesOk), buffered_objects_count() is the length of a duplicate-free buffer whose members are exactly the PossibleCycles-marked live boxes (buffer_exact, from Inv). Step lemmas: add_to_list/remove_from_list exact size change; clone leaves the buffer; executions_count grows in EVERY micro-step by exactly the number of collections the step starts (executions_count_exact, all modes). Checked per run by model-independent oracles (allocator sum vs allocated_bytes, buffer walk vs cached size, link integrity, marks).",
+    "C11": ("Proved for every reachable world: allocated_bytes() equals the total size of the boxes that exist (BytesOk), buffered_objects_count() is the length of a duplicate-free buffer whose members are exactly the PossibleCycles-marked live boxes (buffer_exact, from Inv). Step lemmas: add_to_list/remove_from_list exact size change; clone leaves the buffer; executions_count grows in EVERY micro-step by exactly the number of collections the step starts (executions_count_exact, all modes). Checked per run by model-independent oracles (allocator sum vs allocated_bytes, buffer walk vs cached size, link integrity, marks). POINTER LEVEL (Model/Lists.lean, Proofs/Lists.lean, ListsRefine.lean): src/lists.rs - LinkedList, PossibleCycles with its cached size, LinkedQueue, sharing the two link fields of every box - is modelled statement by statement and proved to refine plain lists for every sequence of operations (step_refines / run_refines): the cached size is the number of boxes the buffer's iterator yields, which is exactly the specification's list, duplicate-free; a box is linked into at most one structure; an unlinked box has no dangling link; remove_first/poll/drop un-mark; mark_self_and_append is ++. That model is tied to the crate by the hook lists_run (real lists on scratch boxes) against the Lean driver and against the list specification evaluated in Python.",
             "Lean proof (bytes and buffer invariants over all micro-steps) + correspondence + buffer-walk oracle"),
     "C12": ("Proved for every reachable world, all nestings of callbacks and caught panics included (Proofs/TraceFlag.lean, TraceFlagEv.lean): EVERY trace EVENT IS EMITTED WITH is_tracing() = true AND EVERY finalize / drop / cleaning-action EVENT WITH is_tracing() = false (tracing_flag_of_every_callback); is_tracing() is false whenever anything but the collector's own loop or pass is on top of the stack - any script of user code, whatever encloses it (not_tracing_unless_collector_on_top; stack invariant tOk: the tracing flags are in force only directly under a collector frame) - and true whenever a pass is about to run. Step lemmas: collect clears finalizing/dropping, nested collect and auto-collect are no-ops while collecting, try_unwrap Err / finalize_again panic in callbacks, and (from I6, proved globally) is_tracing false when idle.",
             "Lean theorems + global flags invariant + correspondence"),
@@ -84,7 +84,7 @@ def main():
             "guard": "cargo feature `verif-hooks` of rust-cc (off by default)",
             "enable": "harness/Cargo.toml depends on rust-cc at /repo with features [\"std\", \"verif-hooks\", ...]",
             "baseline_off_cmd": "cd /repo && cargo nextest run --workspace --no-fail-fast --offline",
-            "source_commits": ["01a5a82", "84236da"],
+            "source_commits": ["01a5a82", "84236da", "078c073"],
             "add_only": True,
         },
         "engines": [{"name": "lean4-model+correspondence", "path": "/verif/check", "serves_properties": [c["property_id"] for c in checks],
